@@ -180,8 +180,9 @@ def _prune_failures(res):
         groups.setdefault(sig, []).append(f)
     kept = []
     for sig, fs in groups.items():
-        fs.sort(key=lambda f: len(str(f["case"])))
+        fs.sort(key=lambda f: (len(str(f["case"])), str(f["case"]), f["detail"]))
         kept += fs[:MAX_FAIL_PER_SIGNATURE]
+    kept.sort(key=lambda f: (f["contract"], len(str(f["case"])), str(f["case"]), f["detail"]))
     res.failures = kept
     return len(groups)
 
